@@ -196,11 +196,13 @@ func (s *Server) signal() {
 //
 // The caller must invoke the returned function to complete the request.
 func (s *Server) nextRequest() (func() error, error) {
+	verifPoint("srv.next.enter", s, nil)
 	s.mu.Lock()
 	defer s.mu.Unlock()
 	for s.ch != nil && s.inq.IsEmpty() {
 		s.mu.Unlock()
 		<-s.work
+		verifPoint("srv.next.wake", s, nil)
 		s.mu.Lock()
 	}
 	if s.ch == nil && s.inq.IsEmpty() {
@@ -225,7 +227,9 @@ func (s *Server) nextRequest() (func() error, error) {
 func (s *Server) waitForBarrier(n int) {
 	s.mu.Unlock()
 	defer s.mu.Lock()
+	verifPoint("srv.barrier.wait", s, n)
 	s.nbar.Wait()
+	verifPoint("srv.barrier.pass", s, n)
 	s.nbar.Add(n)
 }
 
@@ -258,6 +262,7 @@ func (s *Server) dispatchLocked(next jmessages, ch sender) func() error {
 			if todo == 0 {
 				t.val, t.err = s.invoke(t.ctx, t.m, t.hreq)
 				if t.hreq.IsNotification() {
+					verifPoint("srv.nbar.done", s, t.hreq)
 					s.nbar.Done()
 				}
 				break
@@ -268,6 +273,7 @@ func (s *Server) dispatchLocked(next jmessages, ch sender) func() error {
 				defer wg.Done()
 				t.val, t.err = s.invoke(t.ctx, t.m, t.hreq)
 				if t.hreq.IsNotification() {
+					verifPoint("srv.nbar.done", s, t.hreq)
 					s.nbar.Done()
 				}
 			}()
@@ -286,6 +292,7 @@ func (s *Server) deliver(rsps jmessages, ch sender, elapsed time.Duration) error
 		return nil
 	}
 	s.log("Completed %d requests [%v elapsed]", len(rsps), elapsed)
+	verifPoint("srv.deliver.enter", s, rsps)
 	s.mu.Lock()
 	defer s.mu.Unlock()
 
@@ -378,6 +385,7 @@ func (s *Server) setContext(t *task, id string) {
 // the return value into JSON if there is one.
 func (s *Server) invoke(base context.Context, h Handler, req *Request) (json.RawMessage, error) {
 	ctx := context.WithValue(base, serverKey{}, s)
+	verifPoint("srv.invoke.acquire", s, req)
 	if err := s.sem.Acquire(ctx, 1); err != nil {
 		return nil, err
 	}
@@ -463,6 +471,7 @@ func (s *Server) Callback(ctx context.Context, method string, params any) (*Resp
 // response, deliver an error to the caller.
 func (s *Server) waitCallback(pctx context.Context, id string, p *Response) {
 	<-pctx.Done()
+	verifPoint("srv.waitcb.enter", s, id)
 	s.mu.Lock()
 	defer s.mu.Unlock()
 	if _, ok := s.call[id]; !ok {
@@ -487,6 +496,7 @@ func (s *Server) pushReq(ctx context.Context, wantID bool, method string, params
 		}
 		bits = v
 	}
+	verifPoint("srv.push.enter", s, method)
 	s.mu.Lock()
 	defer s.mu.Unlock()
 	if s.ch == nil {
@@ -528,6 +538,7 @@ func (s *Server) pushReq(ctx context.Context, wantID bool, method string, params
 // is safe to call this method multiple times or from concurrent goroutines; it
 // will only take effect once.
 func (s *Server) Stop() {
+	verifPoint("srv.stop.enter", s, nil)
 	s.mu.Lock()
 	defer s.mu.Unlock()
 	s.stopLocked(errServerStopped)
@@ -556,6 +567,7 @@ func (s ServerStatus) Success() bool { return s.Err == nil }
 // safe to call s.Start again to restart the server with a fresh channel.
 func (s *Server) WaitStatus() ServerStatus {
 	s.wg.Wait()
+	verifPoint("srv.wait.done", s, nil)
 	// Postcondition check.
 	if !s.inq.IsEmpty() {
 		panic("s.inq is not empty at shutdown")
@@ -644,6 +656,7 @@ func (s *Server) read(ch receiver) {
 			derr = in.parseJSON(bits)
 			rpcRequestsCount.Add(int64(len(in)))
 		}
+		verifPoint("srv.read.recv", s, err)
 		s.mu.Lock()
 		if err != nil { // receive failure; shut down
 			s.stopLocked(err)
@@ -837,6 +850,7 @@ func (ts tasks) numToDo() (todo, notes int) {
 // CancelRequest instructs s to cancel the pending or in-flight request with
 // the specified ID. If no request exists with that ID, this is a no-op.
 func (s *Server) CancelRequest(id string) {
+	verifPoint("srv.cancel.enter", s, id)
 	s.mu.Lock()
 	defer s.mu.Unlock()
 	if s.cancelLocked(id) {
